@@ -23,7 +23,7 @@ theorem rr_stop (vs ve N kk n se E q nk : Int) (hk : 0 < kk) (hn : 0 < n)
 
 theorem rr_combine (vs ve N kk n se A B Ak Bk nk S E : Int) (hk : 0 < kk)
     (h0 : -N - 1 ≤ ve) (h1 : ve ≤ vs) (h2 : vs ≤ -1)
-    (kit1 : vs - ve ≤ nk) (kit2 : nk < vs - ve + kk)
+    (_kit1 : vs - ve ≤ nk) (kit2 : nk < vs - ve + kk)
     (hA : -1 ≤ A ∧ A ≤ n - 1 ∧ N + vs - Ak ≤ S ∧ (0 ≤ A → S = N + vs - Ak))
     (hB : -1 ≤ B ∧ B ≤ n - 1 ∧
       ((0 ≤ B ∧ E = N + vs - Bk) ∨ (B = -1 ∧ se < 0 ∧ E = N + vs + 1) ∨ (B = n - 1 ∧ se ≥ 0 ∧ E ≤ N + ve)))
